@@ -123,6 +123,17 @@ func compareSolo(x *X, i int, op Op, o, solo *Outcome, data []store.Series) {
 	}
 }
 
+// recheckReturned: the value a client was handed is read again after its query was closed and
+// every other client has finished; the other queries must not have written into it.
+func recheckReturned(x *X, i int, op Op, o *Outcome) {
+	if o == nil || o.Raw == nil || o.Res == nil {
+		return
+	}
+	if d := Compare(Normalize(o.Raw), o.Res, 0); d.Kind != "" {
+		x.Viol("C12", "isolation", "returned-result-altered|"+Shape(op.Q), fmt.Sprintf("client %d: %s [%d..%d step %d]: the returned result changed while the other queries ran: %s", i, op.Q, op.Start, op.End, op.Step, d.Detail))
+	}
+}
+
 func concMain(x *X) {
 	c := x.C
 	st, eng, pstores := buildEngine(c, c.Ops[0], c.Store)
@@ -159,6 +170,7 @@ func concMain(x *X) {
 			nt = true
 		}
 		compareSolo(x, i, op, outs[i], solo, c.Data)
+		recheckReturned(x, i, op, outs[i])
 	}
 	x.R.Nontrivial = nt
 	for _, s := range append([]*store.Store{st}, pstores...) {
@@ -212,6 +224,7 @@ func raceMain(x *X) {
 	}
 	for i, op := range c.Ops {
 		compareSolo(x, i, op, outs[i], solos[soloKey(op)], c.Data)
+		recheckReturned(x, i, op, outs[i])
 	}
 	if err := st.SharedIntact(); err != nil {
 		x.Viol("C17", "storage-data-modified", "storage-data-modified|concurrent", err.Error())
@@ -341,6 +354,11 @@ func GenHistory(t *testing.T, r *rand.Rand, prop, tier string, _ *atomic.Int64) 
 				op.Faults = []store.Fault{{Kind: "err", At: 1 + r.Intn(60)}}
 			case 2:
 				op.Faults = []store.Fault{{Kind: "panic", At: 1 + r.Intn(60)}}
+			case 3:
+				// Cancel() from a second client at an arbitrary scheduler step of this query
+				// (relative to its start; historyMain rebases it)
+				op.ClientCancelStep = 1 + r.Intn(250)
+				op.ClientClose = r.Intn(4) == 0
 			}
 			c.Ops = append(c.Ops, op)
 		case k < 9:
@@ -407,6 +425,10 @@ func historyMain(x *X) {
 			check(i, "gc")
 		default:
 			op.Eng = eng0
+			if op.ClientCancelStep > 0 {
+				_, now := sched.Current()
+				op.ClientCancelStep += now
+			}
 			o := RunQuery(QueryRun{Op: op, Eng: eng, Store: st, Sim: x.S, Acct: st, Contract: true})
 			x.R.Evals++
 			x.S.Drain()
@@ -419,9 +441,13 @@ func historyMain(x *X) {
 				x.Fire(o.Acct.Fired)
 			}
 			faulted := o.Acct != nil && len(o.Acct.Fired) > 0
+			if op.ClientCancelStep > 0 && (o.Err != "" || !o.Created) {
+				faulted = true
+				x.Fire(map[string]int{"client-cancel": 1})
+			}
 			if !faulted {
 				fop := op
-				fop.Faults = nil
+				fop.Faults, fop.ClientCancelStep, fop.ClientClose = nil, 0, false
 				fst := store.New(cur, c.Store, false)
 				fo := RunQuery(QueryRun{Op: fop, Eng: NewEngine(eng0, nil), Store: fst, Sim: x.S, Acct: fst, Contract: false})
 				x.R.Evals++
